@@ -235,6 +235,10 @@ func (d *Decoder) ReadNatural() (uint64, error) {
 		return uint64(prefix), nil
 	}
 	if prefix == 0xFF {
+		// the 9-byte form is only canonical for v >= 2^56
+		if d.Remaining() >= 8 && binary.LittleEndian.Uint64(d.data[d.pos:]) < (uint64(1)<<56) {
+			return 0, fmt.Errorf("telemetry: non-minimal natural encoding")
+		}
 		return d.ReadU64()
 	}
 	// l in 1..7. Range size is 1 << (7-l); base is 256 - (1 << (8-l)).
